@@ -216,6 +216,8 @@ def function(func=None, *, version=0):
                         raise pickle.UnpicklingError
                 else:
                     value, log_ = data
+                if not isinstance(log_, log.RecordLog):
+                    raise pickle.UnpicklingError
             except Exception:
                 # A truncated or partially overwritten entry can fail in the
                 # unpickler itself (EOFError, UnpicklingError, IndexError) or in
@@ -364,7 +366,10 @@ class Recursion(types.Immutable, metaclass=_RecursionMeta):
                     log.debug('[cache.Recursion {}.{:04d}] lock acquired'.format(hkey, i))
                     if not exhausted:
                         try:
-                            log_, stop, value = pickle.load(f)
+                            log_, stop_, value = pickle.load(f)
+                            if not isinstance(log_, log.RecordLog) or not isinstance(stop_, bool):
+                                raise pickle.UnpicklingError
+                            stop = stop_
                         except EOFError:
                             log.debug('[cache.Recursion {}.{:04d}] cache exhausted'.format(hkey, i))
                             exhausted = True
